@@ -169,6 +169,10 @@ class RngStub:
         hi = np.broadcast_to(np.asarray(_raw(high), dtype=object), size if size is not None else np.shape(_raw(high)))
         out = np.empty(lo.shape, dtype=object)
         for idx in np.ndindex(lo.shape):
+            for b in (lo[idx], hi[idx]):
+                if isinstance(b, (float, np.floating)) and not np.isfinite(b):
+                    raise OverflowError("Range exceeds valid bounds")       # numpy.random.uniform (probed)
+        for idx in np.ndindex(lo.shape):
             v = eng.real(self._draw_name("unif")) if self.functional is not None else eng.fresh_real("unif")
             if not eng.concrete:
                 from symnp import lift
